@@ -14,7 +14,9 @@ reads that table from RDKit objects.
   is *not* part of it (the code never sets it; RDKit perceives it again).
 * `hToExplicit`, `hToImplicit`, `implicitHydrogen`, `hasXH`, `hasHH` mirror
   `synkit/Graph/Hyrogen/_misc.py` on molecule graphs.  `hToImplicit` follows the F18 repair
-  (draft fix 0012): a hydrogen with no heavy neighbour stays explicit.
+  (draft fix 0012): a hydrogen with no heavy neighbour stays explicit.  `implicitHydrogen` follows
+  the F29 repair (draft fix 0022): a non-preserved hydrogen is removed only if it has a heavy
+  neighbour.
 
 Numbers in attribute dicts travel in half-units (`Val.num (2*k)` is the integer `k`).
 Domain (checked by the driver, which answers `unsupported` outside it): `hcount`, `charge`,
@@ -270,10 +272,16 @@ def atomMapOf (a : Attrs) : Option Nat :=
   | some (.num h) => if h % 2 = 0 ∧ h ≥ 0 then some (h / 2).toNat else none
   | _ => none
 
+/-- `any(new_graph.nodes[neighbor]["element"] != "H" for neighbor in new_graph.neighbors(node))`:
+the node has at least one non-hydrogen neighbour. -/
+def hasHeavyNbr (g : LGraph) (v : Nat) : Bool := (g.neighbors v).any fun n => !(isH (g.attrs n))
+
 /-- `implicit_hydrogen(graph, preserve_atom_maps, reindex=False)` on a graph whose nodes all carry
 `element`, `hcount` (and hydrogens `atom_map`): every heavy atom absorbs its hydrogen neighbours
-into its count, gives one back for every preserved hydrogen neighbour; all other hydrogen nodes
-are removed. -/
+into its count, gives one back for every preserved hydrogen neighbour; then every hydrogen node
+that is not preserved **and has at least one non-hydrogen neighbour** is removed (with its bonds).
+A hydrogen without a non-hydrogen neighbour (free H, H+, H-, the atoms of H2) was not folded into
+any count and stays (F29 repair, draft fix 0022). -/
 def implicitHydrogen (g : LGraph) (preserve : List Nat) : LGraph :=
   let nH (v : Nat) : Int := ((g.neighbors v).filter fun n => isH (g.attrs n)).length
   let g1 : LGraph := { g with nodes := g.nodes.map (fun p =>
@@ -283,10 +291,10 @@ def implicitHydrogen (g : LGraph) (preserve : List Nat) : LGraph :=
   let dec (a : Attrs) : Attrs := Dict.set a "hcount" (.num (hraw a - 2))
   let g2 := preserved.foldl (fun g' h =>
     (g'.neighbors h).foldl (fun g'' n => if isH (g''.attrs n) then g'' else updAttrs g'' n dec) g') g1
-  { nodes := g2.nodes.filter fun p => !(isH p.2) || preserved.contains p.1
-    edges := g2.edges.filter fun e =>
-      let keep (v : Nat) := !(isH (g2.attrs v)) || preserved.contains v
-      keep e.1 && keep e.2.1 }
+  -- `hydrogen_to_remove`: element == "H" and node not in preserved_hydrogens and any(non-H neighbour)
+  let removed (v : Nat) (a : Attrs) : Bool := isH a && !(preserved.contains v) && hasHeavyNbr g2 v
+  { nodes := g2.nodes.filter fun p => !(removed p.1 p.2)
+    edges := g2.edges.filter fun e => !(removed e.1 (g2.attrs e.1)) && !(removed e.2.1 (g2.attrs e.2.1)) }
 
 /-- Domain of `implicit_hydrogen`: `data["element"]`, `data["hcount"]`, `data["atom_map"]` must exist. -/
 def implDomain (g : LGraph) : Bool :=
